@@ -1,30 +1,8 @@
 """C13 — Quadtree enumeration and tile counts are consistent and match what is visited."""
 PROPERTY = "C13"
 LEVEL = "other"
-CONTRACT_MODULES = ["contracts.specfuns", "contracts.lemmas_desc", "contracts.pyramid", "contracts.parallel", "contracts.walk", "contracts.reducer", "contracts.lemmas_embed", "contracts.generator", "contracts.image", "contracts.merge", "contracts.pyramidio", "contracts.study", "contracts.multitan", "contracts.multiwcs", "contracts.toastsample", "contracts.toastgeom", "contracts.toastgen"]
-FUNCTIONS = [
-    "toasty.pyramid.pos_parent",
-    "toasty.pyramid.pos_children",
-    "toasty.pyramid.is_subtile",
-    "toasty.pyramid.depth2tiles",
-    "toasty.pyramid.tiles_at_depth",
-    "toasty.pyramid._postfix_pos",
-    "toasty.pyramid.generate_pos",
-    "toasty.pyramid.Pyramid.count_leaf_tiles",
-    "toasty.pyramid.Pyramid.count_live_tiles",
-    "toasty.pyramid.Pyramid.count_operations",
-    "toasty.pyramid.Pyramid._generator",
-    "toasty.pyramid._make_position_filter",
-    "toasty.pyramid.Pyramid.subpyramid",
-    "toasty.toast._postfix_corner",
-    "toasty.toast.generate_tiles_filtered",
-    "toasty.toast.generate_tiles",
-    "toasty.pyramid.Pyramid.walk",
-    "toasty.pyramid.Pyramid._walk_serial",
-    "toasty.pyramid.Pyramid._walk_parallel",
-    "toasty.pyramid.Pyramid.visit_leaves",
-    "toasty.pyramid.Pyramid._visit_leaves_serial",
-]
+CONTRACT_MODULES = ['contracts.specfuns', 'contracts.lemmas_desc', 'contracts.pyramid', 'contracts.parallel', 'contracts.walk', 'contracts.reducer', 'contracts.lemmas_embed', 'contracts.generator', 'contracts.image', 'contracts.merge', 'contracts.pyramidio', 'contracts.study', 'contracts.multitan', 'contracts.multiwcs', 'contracts.toastsample', 'contracts.toastgeom', 'contracts.toastgen', 'contracts.paths', 'contracts.datarange', 'contracts.builderc']
+FUNCTIONS = ['toasty.pyramid.pos_parent', 'toasty.pyramid.pos_children', 'toasty.pyramid.is_subtile', 'toasty.pyramid.depth2tiles', 'toasty.pyramid.tiles_at_depth', 'toasty.pyramid._postfix_pos', 'toasty.pyramid.generate_pos', 'toasty.pyramid.Pyramid.count_leaf_tiles', 'toasty.pyramid.Pyramid.count_live_tiles', 'toasty.pyramid.Pyramid.count_operations', 'toasty.pyramid.Pyramid._generator', 'toasty.pyramid._make_position_filter', 'toasty.pyramid.Pyramid.subpyramid', 'toasty.toast._postfix_corner', 'toasty.toast.generate_tiles_filtered', 'toasty.toast.generate_tiles', 'toasty.pyramid.Pyramid.walk', 'toasty.pyramid.Pyramid._walk_serial', 'toasty.pyramid.Pyramid._walk_parallel', 'toasty.pyramid.Pyramid.visit_leaves', 'toasty.pyramid.Pyramid._visit_leaves_serial', 'toasty.toast.sample_layer', 'toasty.toast.sample_layer_filtered', 'toasty.merge.cascade_images']
 LEMMAS = ["desc_child_step", "desc_child_pair", "desc_siblings_disjoint", "desc_levels", "desc_transitive",
           "desc_root", "pow2_add", "ops_plus_leaves_equals_live",
           "embed_preserves_desc", "embed_below_apex", "embed_valid", "anc_above_apex", "anc_valid", "embed_injective"]
